@@ -34,20 +34,22 @@ RULE = ("8 base scenarios (forward/reversed x single/multi-file forcing x discre
         "missing, forcing pattern matching nothing (grid file given / inferred), forcing file without frames, grid file "
         "missing, each of the sections time/forcing/release/tracker/output removed or given without content, "
         "forcing.filename / forcing.module / grid.filename keys removed, output.filename / output_period / "
-        "instance_variables removed, output period shorter than dt, configuration file missing / not YAML / wrong "
+        "instance_variables removed, configuration file missing / not YAML / wrong "
         "version, subgrid with i0 >= i1, j0 >= j1, beyond the grid, 0, negative beyond the grid, legal negative; "
-        "thorough adds pairs of faults.  Each case runs ladim.main.main; compared with the Coq model: refused/started, "
+        "plus random pairs of injections (4 per base scenario in quick; thorough: 3 rounds of base scenarios and 40 "
+        "pairs each) and the regression set-ups of corpus/C20.  Each case runs ladim.main.main; compared with the Coq model: refused/started, "
         "the refusing constructor, number of update() calls, number of records.  Non-trivial = distinct (scenario, "
         "fault list) with at least one fault or a tight valid neighbour.")
 TRUSTED = ["Coq 8.16.1 kernel + vm_compute", "hand-written model coq/Model/Startup.v (reusing Model/Time.v tk_init and "
            "Model/Release.v rel_init) tied by this correspondence",
            "synthetic ROMS files written by harness/lib/romsfiles.py; netCDF4, pandas, PyYAML as run",
-           "the refusing stage is read off the traceback (frame of ladim.configure / local main_class_name of "
-           "ladim.model.init_module)"]
+           "the refusing stage is read off the traceback (a frame of ladim.configure; local main_class_name of "
+           "ladim.model.init_module; loop variable of ladim.model.Model.__init__ for config[name])"]
 ASSUMPTIONS = ["cold start, configuration format version 2, default modules (ladim.ROMS, ladim.release, ladim.out_netcdf)",
                "times are whole seconds; forcing files are well-formed ROMS files apart from their list of frame times",
                "release rows have mult = 1 (a mult = 0 row counts as a row for the code; see the report)",
-               "continuous release: frequency > 0"]
+               "continuous release: frequency > 0; output period >= dt (a shorter period is accepted by the code: numpy "
+               "integer division by zero, a record at every step)"]
 
 STAGES = ["Config", "State", "Time", "Grid", "Forcing", "Release", "Tracker", "Ibm", "Output"]
 CLASS2STAGE = {"State": 1, "TimeKeeper": 2, "Grid": 3, "Forcing": 4, "ParticleReleaser": 5, "Tracker": 6, "IBM": 7,
@@ -486,6 +488,8 @@ def timed(desc):
 
 # every injector takes (desc, rng) and edits desc in place; returns False when not applicable
 def f_forcing_late(d, rng):
+    if not timed(d):
+        return False
     lo, _ = lo_hi(d)
     frames = [t for f in d["files"] for t in f]
     keep = [t for t in frames if t > lo + d["dt"]]
@@ -493,6 +497,8 @@ def f_forcing_late(d, rng):
 
 
 def f_forcing_early_end(d, rng):
+    if not timed(d):
+        return False
     _, hi = lo_hi(d)
     frames = [t for f in d["files"] for t in f]
     keep = [t for t in frames if t < hi - d["dt"]]
@@ -501,6 +507,8 @@ def f_forcing_early_end(d, rng):
 
 def v_forcing_tight(d, rng):
     """valid neighbour: first frame exactly at the minimum time, last exactly at the maximum"""
+    if not timed(d):
+        return False
     lo, hi = lo_hi(d)
     frames = [t for f in d["files"] for t in f]
     mid = [t for t in frames if lo < t < hi]
@@ -556,6 +564,8 @@ def f_flip(d, rng):
 
 
 def f_start_eq_stop(d, rng):
+    if not timed(d):
+        return False
     d["stop"] = d["start"]
 
 
@@ -564,6 +574,8 @@ def sgn(d):
 
 
 def f_rel_before(d, rng):
+    if not timed(d):
+        return False
     s = sgn(d)
     if d["rel_cont"] is not None:
         return False  # a continuous release that begins before the start is valid
@@ -571,23 +583,33 @@ def f_rel_before(d, rng):
 
 
 def f_rel_after(d, rng):
+    if not timed(d):
+        return False
     s = sgn(d)
     d["rel_times"] = [d["stop"] + s * k * d["dt"] for k in (0, 1, 4)]
 
 
 def f_rel_at_stop(d, rng):
+    if not timed(d):
+        return False
     d["rel_times"] = [d["stop"]]
 
 
 def v_rel_at_start(d, rng):
+    if not timed(d):
+        return False
     d["rel_times"] = [d["start"]]
 
 
 def v_rel_last_step(d, rng):
+    if not timed(d):
+        return False
     d["rel_times"] = [d["stop"] - sgn(d) * d["dt"]]
 
 
 def v_rel_cont_before(d, rng):
+    if not timed(d):
+        return False
     if d["rel_cont"] is None:
         return False
     d["rel_times"] = [d["start"] - sgn(d) * 2 * d["rel_cont"]]
